@@ -11,7 +11,7 @@ def replyToks : SReply → List String
   | .status st => [stNum st]
   | .attr k sz id => ["0", toString k, toString sz, toString id]
   | .read n eof d => ["0", toString n, if eof then "1" else "0", toHex d]
-  | .write n => ["0", toString n]
+  | .write n => ["0", toString n, "2"]     -- committed = FILE_SYNC whatever was asked for
   | .lookup i => ["0", toString i]
 
 def parseOp (ws : List String) : Option SOp :=
